@@ -135,7 +135,7 @@ SPEC = dict(
         'it names and runs that item\'s continuation once (contracts of try_submit_io / acquire_completion_queue_items / execute_pending_local, group uring_queue); an IORING_OP_ASYNC_CANCEL finds '
         'its target only if the target\'s SQE precedes it in the submission queue (the kernel consumes SQEs in order); what the cancel\'s own CQE carries is not used by the code',
         'kernel model of IORING_OP_ACCEPT: a CQE with res >= 0 means the kernel has installed a NEW open descriptor res in the process (owned by nobody until it is wrapped); res < 0 means no descriptor '
-        'was created; -ECANCELED is produced only for an accept that was cancelled before it took a connection',
+        'was created (in particular -ECANCELED: the accept was cancelled before it took a connection)',
         'try_submit_io / schedule_remote / schedule_pending_io are event stubs checked against specs/uring_queue/uq_contract.h (enforced on the real bodies in group uring_queue); '
         'try_submit_io may find no room at any time',
         'async_read_write_file{ctx, fd} / safe_file_descriptor (a 20-line RAII wrapper) are modelled inside the set_value stubs, not extracted: the temporary owns the descriptor from its construction; '
